@@ -117,6 +117,16 @@ theorem lax_headers_from_ethernet_vs_wire_formats (b : Bytes) (x : Headers)
     rw [hs] at h4 h5
     exact ⟨m, rfl, h5.1, h4⟩
 
+/-- **`LaxPacketHeaders::from_ether_type` against the wire formats**: its result agrees (`LaxAgree`) with a packet that
+    is the lax wire-format walk in front of its first fault, or it stopped `EarlyLax` -/
+theorem lax_headers_from_ether_type_vs_wire_formats (et : Nat) (b : Bytes) :
+    EpModel.Lemmas.RefineLax.RelLaxW (memOf b) (laxSlicedFromEtherType (memOf b) et b.length)
+        (Spec.decodeLax (.etherType et) (memOf b) b.length) ∧
+      (LaxAgree (memOf b) 0 (lphFromEtherType (memOf b) et 0 b.length) (laxSlicedFromEtherType (memOf b) et b.length)
+          Packet.empty (Packet.empty.setLink (.etherPayload et ⟨0, b.length⟩)) ∨
+        EarlyLax (lphFromEtherType (memOf b) et 0 b.length)) :=
+  ⟨EpModel.Props.C05.lax_from_ether_type_matches_wire_formats et b, lax_headers_from_ether_type_agree_with_slicing et b⟩
+
 set_option maxRecDepth 8000 in
 /-- the theorems speak about real results: the Ethernet / VLAN / IPv4 / UDP frame of Props/C06Headers.lean is
     accepted by struct decoding, and cut after 40 bytes it is rejected (so both the `ok, ok` and the
